@@ -419,6 +419,7 @@ func main() {
 		}
 		iterCase(vers[i%3], o, hwm, items, budgets)
 	}
+	expiredCases(r, thorough)
 	readerCases(r, thorough)
 }
 
